@@ -22,6 +22,8 @@ pub struct Case {
     /// C08: chunks fed to the channel, in order, before EVERY judged chunk (after the policy was put back);
     /// they are reported once, ahead of the judged chunks
     pub pre: Vec<Vec<u8>>,
+    /// C08: the receiver derived keys once before, with this peer nonce seed (a token that has since been renewed)
+    pub pre_nonce: Option<u8>,
 }
 
 // ---------------------------------------------------------------- status classes
@@ -196,7 +198,7 @@ pub fn mutate(v: &mut Vec<u8>, r: &mut Rng) -> &'static str {
 
 pub fn mk_case(policy: usize, mode: usize, chunks: Vec<Vec<u8>>, tag: &str) -> Case {
     Case { policy, mode, chan_id: 5, rid: 1, sid: 0, has_cert: policy != 0, has_pkey: policy != 0, has_keys: policy != 0,
-           start: 1, chunks, validate: false, tag: tag.to_string(), peer_nonce: 11, reset_policy: false, pre: Vec::new() }
+           start: 1, chunks, validate: false, tag: tag.to_string(), peer_nonce: 11, reset_policy: false, pre: Vec::new(), pre_nonce: None }
 }
 
 
@@ -216,6 +218,11 @@ pub fn exec_case(c: &Case) -> (String, Vec<i128>) {
         if c.has_keys && c.policy != 0 {
             // receiver's nonces mirror the sender's (see sym_keys): local = 77, remote = 11
             ch.set_local_nonce(&nonce_for(c.policy, 77));
+            if let Some(pn) = c.pre_nonce {
+                // the token before the renewal
+                ch.set_remote_nonce(&nonce_for(c.policy, pn));
+                ch.derive_keys();
+            }
             ch.set_remote_nonce(&nonce_for(c.policy, c.peer_nonce));
             ch.derive_keys();
             let rk = ch.verif_derived_keys().1.unwrap();
